@@ -72,10 +72,17 @@ def run_dpseg(nfolds, plan_by_call, text=None):
         old = tempfile.tempdir
         tempfile.tempdir = work
         try:
-            out = list(dpseg.segment(list(text or TEXT), nfolds=nfolds, njobs=1, args='--randseed 1'))
-            res = ('ok', out)
-        except Exception as e:  # noqa
-            res = ('raise', type(e).__name__)
+            box = []
+
+            def call():
+                try:
+                    box.append(('ok', list(dpseg.segment(list(text or TEXT), nfolds=nfolds, njobs=1, args='--randseed 1'))))
+                except Exception as e:  # noqa
+                    box.append(('raise', type(e).__name__))
+            th = threading.Thread(target=call, daemon=True)
+            th.start()
+            th.join(60)
+            res = box[0] if box else ('raise', 'HANG (no answer after 60 s)')
         finally:
             tempfile.tempdir = old
         return res, sorted(os.listdir(work))
@@ -251,6 +258,11 @@ def main():
         plan = {i: dict(how=list(how), early=True, big_input=True)}
         scs.append(('dpseg', n, plan))
         observed.append(run_dpseg(n, plan, text=big))
+    # a program that writes its diagnostics (more than a pipe holds) on one stream only, healthy or failing
+    for n, i, how, stream in ((1, 0, ('ok',), 'stderr'), (2, 1, ('ok',), 'stdout'), (2, 0, HOWS[0], 'stderr'), (3, 1, HOWS[3], 'stdout')):
+        plan = {i: dict(how=list(how), chatter={'stream': stream, 'bytes': 200000})}
+        scs.append(('dpseg', n, plan))
+        observed.append(run_dpseg(n, plan))
     # a non-ASCII text, the output of the failing run stopping INSIDE a multi-byte character
     text_u = ['ð ə k', 'æ t ð', 'ə ə']
     for n, i, how, pt in ((1, 0, HOWS[0], dict(complete=1, partial=0, cut_bytes=2)), (2, 1, HOWS[2], dict(complete=0, partial=1, cut_bytes=2)),
